@@ -30,7 +30,7 @@ from symx.values import zreal
 BOUNDS = {
     "quick": "all orders of 2-3 megacomplexes per dataset x label orders (<= 3 labels each, shared and distinct, index dependent "
     "and independent, megacomplex scales); all orders of 2-3 oscillations; all orders of 3 spectral shapes; baseline and "
-    "coherent-artifact labels",
+    "coherent-artifact labels; linked dataset orders: matrices handed to the solver and reported clp / matrix / fitted data per label",
     "thorough": "same, 3 megacomplexes with every label permutation",
 }
 OUTSIDE = "4 labels per megacomplex; pfid and clp-guide megacomplexes (single fixed label lists); derived 'fit unchanged' follows from equal labelled matrices + C02"
@@ -148,8 +148,9 @@ def _run_datasets(cfg, rec):
     # group is the first dataset's, later datasets hold the shared labels in another order
     from harness import c03_result_data as c03
 
-    n0 = len(rec.candidates)
+    n0, nv0 = len(rec.candidates), len(rec.validations)
     c03.run_config(pcfg, rec)
+    del rec.validations[nv0:]  # C03's encoding-validation points are answered by C03's own `concrete`; this harness validates via c02's
     for i in range(n0, len(rec.candidates)):
         c = rec.candidates[i]
         if "item" not in c[2]:
